@@ -1,0 +1,14 @@
+//go:build verif
+// +build verif
+
+package federation
+
+// VerifYield, when set by a verification harness, is called at named points so that the
+// harness can perturb the schedule there.
+var VerifYield func(site string)
+
+func verifYield(site string) {
+	if f := VerifYield; f != nil {
+		f(site)
+	}
+}
